@@ -15,9 +15,9 @@ def Rel.Settled (s : ProcState) : Rel → Prop
        | _ => True)
   | r => (s.payloadOf r).isSome = true
 
-/-- A tree inside ONE iteration engine with materializations but no transfers and no Select markers, whose
-materializations are not statically trivial and whose chains have no statically empty operand (the cases where
-the Processor substitutes a trivial payload or prunes a branch). -/
+/-- A tree inside ONE iteration engine with materializations (statically trivial ones included) but no transfers
+and no Select markers, whose chains have no statically empty operand (the case where the Processor prunes a
+branch and so returns a new tree). -/
 def Rel.PlainIter (e : Engine) : Rel → Prop
   | .leaf _ e' _ _ _ _ _ _ => e' = e
   | .unary _ t _ => Rel.PlainIter e t
@@ -25,7 +25,7 @@ def Rel.PlainIter (e : Engine) : Rel → Prop
       (match op with
        | .chain => l.maxRows ≠ some 0 ∧ r.maxRows ≠ some 0
        | _ => True)
-  | .mat oid n t => Rel.PlainIter e t ∧ (Rel.mat oid n t).isJoinIdentity = false ∧ (Rel.mat oid n t).maxRows ≠ some 0
+  | .mat _ _ t => Rel.PlainIter e t
   | .transfer .. => False
   | .select .. => False
 
@@ -36,15 +36,13 @@ def Rel.procFlag : Rel → Bool
   | _ => true
 
 /-- A tree over SEVERAL iteration engines: leaves, unary operations, chains, transfers between iteration engines
-(not statically trivial) and materializations of single-engine subtrees. -/
+(statically trivial ones included) and materializations of single-engine subtrees. -/
 def Rel.MultiIter : Rel → Prop
   | .leaf _ e _ _ _ _ _ _ => e.kind = .iter
   | .unary _ t _ => Rel.MultiIter t
   | .binary _ l r _ => Rel.MultiIter l ∧ Rel.MultiIter r
-  | .mat oid n t => t.engine.kind = .iter ∧ Rel.PlainIter t.engine t ∧
-      (Rel.mat oid n t).isJoinIdentity = false ∧ (Rel.mat oid n t).maxRows ≠ some 0
-  | .transfer oid d t => Rel.MultiIter t ∧ d.kind = .iter ∧
-      (Rel.transfer oid d t).isJoinIdentity = false ∧ (Rel.transfer oid d t).maxRows ≠ some 0
+  | .mat _ _ t => t.engine.kind = .iter ∧ Rel.PlainIter t.engine t
+  | .transfer _ d t => Rel.MultiIter t ∧ d.kind = .iter
   | .select .. => False
 
 /-- Every marker of the tree has an allocation id below `n` (ids the Processor hands out later are fresh). -/
